@@ -1,5 +1,6 @@
 import PoseVerif.Driver.Codec
 import PoseVerif.Model.Cache
+import PoseVerif.Model.Concurrent
 /-!
 `posedriver`: one JSON request per input line, one JSON answer per output line.
 Runs the executable definitions of the model (the same ones the theorems are about).
@@ -90,6 +91,27 @@ def runHistory (j : Json) : R Json := do
     | none => Json.null
   pure (Json.mkObj [("ok", Json.bool true), ("steps", Json.arr out), ("final", Json.arr final)])
 
+/-- C18: run the cache protocol on a schedule of atomic sections; per thread: the header it ends with (or null) -/
+def runSchedule (j : Json) : R Json := do
+  let files ← (← (← j.getObjVal? "files").getArr?).toList.mapM fun f => do
+    match fromHex (← f.getStr?) with
+    | some b => pure b
+    | none => throw "bad hex"
+  let cache0 : Option (CEntry Header) ← match j.getObjVal? "cache0" with
+    | .ok (Json.str h) => match (fromHex h).bind parseHeader with
+      | some (hd, e) => pure (some ⟨((fromHex h).getD []).take e, e, hd⟩)
+      | none => pure none
+    | _ => pure none
+  let sched ← getNatArr (← j.getObjVal? "sched")
+  let s := crun parseHeader (fun t => files.getD t []) { cache := cache0, pc := fun _ => .start } sched
+  let out := (List.range files.length).map fun t => match s.pc t with
+    | .done (some (h, e)) => Json.mkObj [("state", "done"), ("header", headerToJson h), ("end", natJ e)]
+    | .done none => Json.mkObj [("state", "done"), ("header", Json.null)]
+    | .parsed _ _ => Json.mkObj [("state", "parsed")]
+    | .matched => Json.mkObj [("state", "matched")]
+    | .start => Json.mkObj [("state", "start")]
+  pure (Json.mkObj [("ok", Json.bool true), ("threads", Json.arr out.toArray)])
+
 def handle (j : Json) : R Json := do
   let op ← j.getObjValAs? String "op"
   match op with
@@ -114,6 +136,7 @@ def handle (j : Json) : R Json := do
       | some (p, _) => pure (Json.mkObj [("ok", Json.bool true), ("pose", poseToJson p)])
       | none => pure failJ
   | "history" => runHistory j
+  | "schedule" => runSchedule j
   | _ => throw s!"unknown op {op}"
 
 partial def loop (hin hout : IO.FS.Stream) : IO Unit := do
